@@ -5,6 +5,7 @@ Content-Type from an independent extension table; Content-Length = size; 404 wit
 not-found page (never another file's content) when the lookup selects nothing."""
 from vlib import common as C, serve as S, reqgen as G, strict_http as H, servecheck as K
 
+DRIVERS = ['Serve', 'Mime']   # model driver files this check runs: scopes translator failures to the tables they (and the proofs) import
 TRUSTED = ['Linux file system semantics for the generated trees (real files through the harness)']
 ASSUMPTIONS = ['independent extension->type table for the extensions the generator uses (vlib/servecheck.py EXT_TYPES)',
                'cases the documented lookup does not determine (trailing slash on a file, names file-ext refuses, percent-encoded names, symlinks, '
